@@ -75,7 +75,7 @@ G("from_stream", impl=r"impl PDU", props=["C06"], keys=True,
          (r"header\.read\(stream\)\?;", 1, "proof { lemma_read_keeps_layout(m0, header.mv()); }")])
 # refusal-justification claims on match arms `_ => return Err(..)`: the claim opens a block around the arm expression (on a line of its own, so that a
 # failure is attributed to it) and the LAST hint of the function closes it
-NOT_IMPL_PDU = r'return Err\(Error::RdpError\(RdpError::new\(RdpErrorKind::NotImplemented, "GLOBAL: PDU not implemented"\)\)\)'
+NOT_IMPL_PDU = r'return Err\(Error::RdpError\(RdpError::new\(RdpErrorKind::NotImplemented, "[^"]*"\)\)\)'
 NOT_IMPL_ANY = r'return Err\(Error::RdpError\(RdpError::new\(RdpErrorKind::NotImplemented,[^\n]*\)\)\)'
 G("from_control", impl=r"impl PDU", props=["C06", "C12"], keys=True,
   # MS-RDPBCGR 2.2.8.1.1.1.1 pduType: a share control PDU is refused as not implemented only when its type is none of Demand Active 0x11,
